@@ -6,7 +6,7 @@ A script is a list of tuples; the same alphabet is understood by the Coq model
   ("open",) ("close",) ("send", k, pol) ("send2", k1, pol1, k2, pol2)
   ("adv", ticks) ("net", accept, latency_ticks) ("eof",) ("rst",)
   ("frame", j) ("bad", kind) ("failw",) ("reset",) ("subraise", flag)
-and, outside the model (monitors only): ("bp", on) ("subsend", k, pol) ("sendclose", k, pol) ("trunc", j, cut) ("burn", next_id)
+and, outside the model (monitors only): ("bp", on) ("subsend", k, pol) ("sendclose", k, pol) ("trunc", j, cut) ("burn", next_id) ("cancelsends",) ("cancelclose",) ("lostparked",)
 
 The result is one list of canonical events per stimulus.
 """
@@ -307,6 +307,9 @@ class SockRunner:
         try:
             await self.sock.send(msg, POLICIES[pol])
             self.events.append(("sendok",))
+        except asyncio.CancelledError:
+            self.events.append(("sendcancelled",))
+            raise
         except Exception as ex:  # noqa: BLE001
             code = ERR_CODES.get(type(ex).__name__)
             if code is None:
@@ -412,6 +415,19 @@ class SockRunner:
             cur = net.current()
             if cur is not None:
                 cur.transport.peer_bytes(bad_input(self.gen, st[1]))
+        elif kind == "cancelsends":
+            # the callers of the send() calls still in progress give up (asyncio.wait_for time-out / cancellation)
+            for t in self.tasks:
+                if not t.done():
+                    t.cancel()
+        elif kind == "cancelclose":
+            # ... at the moment the client closes its transport (while the failing send is inside reset_connection)
+            def hook(conn):
+                self.events.append(("hookcancel",))
+                for t in self.tasks:
+                    if not t.done():
+                        t.cancel()
+            net.on_client_close = hook
         elif kind == "lostparked":
             pass        # marker for the monitors: the next stimulus kills the link while drain loops are suspended
         elif kind == "burn":
